@@ -14,7 +14,7 @@ def kindOfName : String → Option Kind
 
 def kindName : Kind → String
   | .list => "list" | .tuple => "tuple" | .set => "set" | .fset => "fset" | .dict => "dict"
-  | .inst k => s!"inst:{k}" | .opq 0 => "bytearray" | .opq _ => "deque"
+  | .inst k _ => s!"inst:{k}" | .opq 0 => "bytearray" | .opq _ => "deque"
   | .usr .list => "SL" | .usr .tuple => "ST" | .usr .set => "SS" | .usr .fset => "SF"
   | .usr .dict => "SD" | .usr .deque => "SQ" | .usr .ntuple => "NT"
 
@@ -45,7 +45,7 @@ def canonKids : Val → List Val
   | .node _ k ks xs =>
       match k.base with
       | .dict => (sortKV (ks.zip xs)).map (·.2)
-      | .inst _ => match ks.zip xs with
+      | .inst _ _ => match ks.zip xs with
         | p :: r => p.2 :: (sortKV r).map (·.2)
         | [] => []
       | .set | .fset => sortA xs
@@ -57,7 +57,7 @@ def walkPath : Val → List Nat → Bool → Option (Val × Bool)
   | v, [], f => some (v, f)
   | v, i :: p, _ =>
       match (canonKids v)[i]? with
-      | some c => walkPath c p (match v with | .node _ (.inst _) _ _ => i == 0 | _ => false)
+      | some c => walkPath c p (match v with | .node _ (.inst _ _) _ _ => i == 0 | _ => false)
       | none => none
 
 structure B where
@@ -149,7 +149,7 @@ def fieldTy (fj : Json) : Ty :=
   | none => t
 
 /-- one declaration.  A subclass (`"base": j`) takes the base's fields over as they are — the same ParserField
-objects, hence the same default objects (cls.py:225-262) — and adds its own. -/
+objects, hence the same default objects (cls.py:223-257) — and adds its own. -/
 def buildDecl (env : Env) (dj : Json) (b0 : B) : Decl × List Val × B :=
     let (fields, b) := (arr! (fld dj "fields")).foldl (fun (fa : List Field × B) fj =>
       let dj' := fld fj "default"
@@ -168,6 +168,7 @@ def buildDecl (env : Env) (dj : Json) (b0 : B) : Decl × List Val × B :=
       let b' := if dflt.vals.any hasNT || freshNT then { b' with bad := some "namedtuple default" } else b'
       (fa.1 ++ [{ name := str! (fld fj "name"), ty := fieldTy fj, dflt := dflt,
                   noOutput := bool! (fld fj "no_output"),
+                  defer := bool! (fld fj "defer"),
                   ci := bool! (fld dj "ci") }], b')) ([], b0)      -- ParserField.setup(options of the declaring class)
     let kind := match str! (fld dj "kind") with
       | "schema" => DKind.schema | "dataclass" => DKind.dataclass | _ => DKind.func
@@ -211,6 +212,7 @@ def atomOf (j : Json) : Val := match j with
 
 structure Run where
   w : World
+  roptRoots : List Nat := []     -- result roots of parses made under running options
   fpool : List Val := []    -- `force_default` objects of the running-options pool (each built once)
   inh : List Nat := []      -- per declaration: how many of its fields are taken over from a base class
   outs : List Outcome := []
@@ -249,23 +251,39 @@ def stepJ (legacy : Bool) (envJ : Json) (r : Run) (j : Json) : Run :=
             | none => (obj? rj "force_default").map atomOf
           { ignoreRequired := bool! (fld rj "ignore_required") || force.isSome,
             noDefault := bool! (fld rj "no_default"),
+            deferDefault := bool! (fld rj "defer_default"),
             force := force,
             dfs := match obj? rj "data_first_search" with
               | some d => if isNull d then none else some (bool! d)
               | none => none }
-        fin (stp r.w (.call (nat! (fld j "target")) (nat! (fld j "wrapper")) (b.next - r.w.next) inp ro))
+        let r' := fin (stp r.w (.call (nat! (fld j "target")) (nat! (fld j "wrapper")) (b.next - r.w.next) inp ro))
+        if isNull rj then r' else { r' with roptRoots := (r.w.roots.length + 1) :: r.roptRoots }
   | "mutate" =>
       match r.w.root (nat! (fld j "root")) with
       | none => { r with outs := r.outs ++ [.skip] }
       | some rv =>
         match walkPath rv ((arr! (fld j "path")).map nat!) false with
         | some (.node i k _ _, false) =>
-            let v := atomOf (fld j "val")
-            let act : Option Act := match str! (fld j "act"), k.base with
-              | "append", .list => some (.append v)
-              | "add", .set => some (.add v)
-              | "setkey", .dict => some (.setkey ((obj? j "key").map str! |>.getD "zz") v)
-              | _, _ => none
+            -- the inserted value: an atom, or an object of an (older) root the caller holds
+            let vj := fld j "val"
+            let v : Option Val := match obj? vj "root" with
+              | some rr => match r.w.root (nat! rr) with
+                | some src => match walkPath src ((arr! (fld vj "path")).map nat!) false with
+                  | some (x, false) => some x
+                  | _ => none
+                | none => none
+              | none => some (atomOf vj)
+            let key := (obj? j "key").map str! |>.getD "zz"
+            let act : Option Act := match str! (fld j "act"), k.base, v with
+              | "append", .list, some v => if v.mutIds.contains i then none else some (.append v)
+              | "add", .set, some v => if v.hashable then some (.add v) else none
+              | "setkey", .dict, some v => if v.mutIds.contains i then none else some (.setkey key v)
+              | "clear", .list, _ => some .clear
+              | "clear", .set, _ => some .clear
+              | "clear", .dict, _ => some .clear
+              | "pop", .list, _ => some .popLast
+              | "delkey", .dict, _ => some (.delkey key)
+              | _, _, _ => none
             match act with
             | some a => fin (stp r.w (.mutate i a))
             | none => { r with outs := r.outs ++ [.skip] }
@@ -274,7 +292,7 @@ def stepJ (legacy : Bool) (envJ : Json) (r : Run) (j : Json) : Run :=
       let root := nat! (fld j "root")
       let fname := str! (fld j "field")
       match r.w.root root with
-      | some (.node _ (.inst k) _ _) =>
+      | some (.node _ (.inst k _) _ _) =>
           let ok := match r.w.env[k]? with
             | some d => d.fields.any (fun f => f.name == fname && (match f.ty with | .any | .int => true | _ => false))
             | none => false
@@ -282,9 +300,15 @@ def stepJ (legacy : Bool) (envJ : Json) (r : Run) (j : Json) : Run :=
           if ok && (match v with | .num _ => true | _ => false) then fin (stp r.w (.setattr root fname (atomOf v)))
           else { r with unm := some "setattr outside the fragment", outs := r.outs ++ [.unmodelled "setattr"] }
       | _ => { r with outs := r.outs ++ [.skip] }
+  | "getattr" =>
+      let root := nat! (fld j "root")
+      if r.roptRoots.contains root then
+        { r with unm := some "attribute access on an instance built under running options",
+                 outs := r.outs ++ [.unmodelled "getattr"], w := { r.w with roots := r.w.roots ++ [none] } }
+      else fin (stp r.w (.getattr root (str! (fld j "field"))))
   | "copy" =>
       match r.w.root (nat! (fld j "root")) with
-      | some (.node _ (.inst k) _ _) =>
+      | some (.node _ (.inst k _) _ _) =>
           if (r.w.env[k]?.map (·.kind == .schema)).getD false then fin (stp r.w (.copy (nat! (fld j "root"))))
           else { r with w := { r.w with roots := r.w.roots ++ [none] }, outs := r.outs ++ [.skip] }
       | _ => { r with w := { r.w with roots := r.w.roots ++ [none] }, outs := r.outs ++ [.skip] }
